@@ -89,6 +89,10 @@ namespace sim
 	{
 		if (m_accepting) return;
 
+		// the error response under way ends this connection: a request that
+		// follows would start a second response on top of it
+		if (m_failed && !ec) return;
+
 		if (ec)
 		{
 			std::printf("http_proxy::on_read_request: (%d) %s\n"
@@ -255,6 +259,8 @@ namespace sim
 
 	void http_proxy::error(int code, char const* message)
 	{
+		if (m_failed) return;
+		m_failed = true;
 		std::string send_buffer = send_response(code, message);
 		memcpy(m_in_buffer, send_buffer.data(), send_buffer.size());
 		asio::async_write(m_client_connection, asio::buffer(
@@ -364,6 +370,7 @@ namespace sim
 		m_num_in_bytes = 0;
 		m_connecting = false;
 		m_writing_to_server = false;
+		m_failed = false;
 
 		// a lookup still in progress belongs to the connection being closed
 		m_resolver.cancel();
